@@ -137,6 +137,10 @@ pub struct WorkerCtx {
     pub stats: Stats,
     /// Optional domain-specific second-stage minimiser applied to the proptest-minimal failure.
     pub minimize: Option<Box<dyn Fn(&Failure) -> Option<Failure>>>,
+    /// Campaign mode (VERIF_COLLECT=1): do not stop at the first failure of a shard; report every
+    /// distinct signature once. Used to enumerate findings, never by the registered commands.
+    pub collect: bool,
+    pub collected: BTreeSet<String>,
 }
 
 fn emit(v: Value) {
@@ -287,6 +291,18 @@ impl WorkerCtx {
                             if !shrinking {
                                 *st.ctx.stats.known_hits.entry(k.signature.clone()).or_insert(0) +=
                                     1;
+                            }
+                            return Ok(());
+                        }
+                        if st.ctx.collect {
+                            // Campaign mode: record every distinct signature once and go on.
+                            if !shrinking && st.ctx.collected.insert(f.sig.clone()) {
+                                let f = match &st.ctx.minimize {
+                                    Some(m) => panics::catch(|| m(&f)).ok().flatten().unwrap_or(f),
+                                    None => f,
+                                };
+                                emit(json!({"k":"viol","shard":shard,"idx":idx,"sig":f.sig,
+                                    "what":f.what,"artefact":f.artefact,"choices":raw}));
                             }
                             return Ok(());
                         }
@@ -1075,6 +1091,8 @@ pub fn worker_main(prop: &dyn Prop, args: &[String]) -> i32 {
                     announce,
                     stats: Stats::default(),
                     minimize: None,
+                    collect: std::env::var("VERIF_COLLECT").is_ok(),
+                    collected: BTreeSet::new(),
                 };
                 prop.worker(&mut ctx);
             })
